@@ -132,6 +132,10 @@ pub enum Op {
     /// scripted: `gap` epochs pass (more than one claim covers), every staker with a position claims, then
     /// for `rounds` epochs: new epoch, snapshot, every staker claims again
     ClaimMarathon { gap: u32, rounds: u32 },
+    /// scripted: the actor opens and closes a position of duration `dur` `cycles` times in a row (amounts
+    /// base, base+1, ...), claiming in between where needed, never withdrawing; then the unbonding time
+    /// passes and the actor withdraws everything at once
+    RestakeMarathon { cycles: u32, dur: u64, base: u128 },
 }
 
 #[derive(Serialize, Deserialize, Clone, Debug, PartialEq)]
